@@ -11,6 +11,10 @@ import adapter
 import sched
 
 
+TRACE_EVENTS = False
+LAST_EVENTS = []
+
+
 def render(col, same, cross):
   parts = ["1"] + ["$%s" % d for d in same] + ["$R.%s" % d for d in cross]
   return " + ".join(parts)
@@ -39,6 +43,7 @@ def run_program(cols, rows, prog, perm):
                else (1, node))
   uas = [['AddColumn', 'T', c, {'type': 'Any', 'isFormula': True,
                                 'formula': render(c, prog["same"][c], prog["cross"][c])}] for c in cols]
+  tracer = SchedulerTracer(eng, cols) if TRACE_EVENTS else None
   seen = []
   orig_make = eng._make_sorted_work_items
   def spy(nodes):
@@ -53,13 +58,72 @@ def run_program(cols, rows, prog, perm):
   sig = json.dumps(sorted(json.dumps(a, sort_keys=True) for a in reply["stored"]))
   # the order in which the engine's first full work list processes the columns (items pop from the end)
   first = next((list(reversed(s)) for s in seen if len(s) == len(cols)), [])
+  LAST_EVENTS[:] = tracer.events if tracer else []
   return {c: [value_of(v) for v in colvals[c]] for c in cols}, sig, first
 
 
+class SchedulerTracer(object):
+  """
+  Logs scheduler events of a live engine from outside (GRIST_VERIF_WRAP=1): one event per call of
+  _make_sorted_work_items, per top-level _recompute_step (a popped work item) and per
+  _recompute_one_cell, for the nodes of table T only.  The event is emitted when the call returns or
+  raises (the linearisation point), with its arguments and outcome.
+  """
+  def __init__(self, eng, cols):
+    import os
+    import engine as engine_mod
+    if os.environ.get("GRIST_VERIF_WRAP") != "1":
+      raise RuntimeError("GRIST_VERIF_WRAP=1 required")
+    self.events = []
+    self.cols = set(cols)
+    self.OrderError = engine_mod.OrderError
+    for name in ("_make_sorted_work_items", "_recompute_step", "_recompute_one_cell"):
+      if not callable(getattr(eng, name, None)):
+        raise LookupError("wrapped engine method disappeared: " + name)
+    om, os_, oc = eng._make_sorted_work_items, eng._recompute_step, eng._recompute_one_cell
+    tr = self
+
+    def make(nodes):
+      items = om(nodes)
+      mine = [it.node.col_id for it in items if it.node.table_id == 'T' and it.node.col_id in tr.cols]
+      if mine:
+        tr.events.append({"e": "make", "order": list(reversed(mine))})
+      return items
+
+    def step(node, allow_evaluation=True, require_rows=None):
+      if allow_evaluation and node.table_id == 'T' and node.col_id in tr.cols:
+        tr.events.append({"e": "pop", "node": node.col_id, "rows": sorted(require_rows or [])})
+      return os_(node, allow_evaluation=allow_evaluation, require_rows=require_rows)
+
+    def cell(table, col, row_id, cycle=False, node=None, record_attributes=None):
+      mine = table.table_id == 'T' and col.col_id in tr.cols and node is not None
+      try:
+        res = oc(table, col, row_id, cycle=cycle, node=node, record_attributes=record_attributes)
+      except tr.OrderError as e:
+        if mine:
+          tr.events.append({"e": "eval", "node": col.col_id, "row": row_id, "cycle": bool(cycle), "out": "order",
+                            "tnode": e.node.col_id, "trow": e.row_id, "val": 0})
+        raise
+      if mine:
+        tr.events.append({"e": "eval", "node": col.col_id, "row": row_id, "cycle": bool(cycle), "out": "value",
+                          "tnode": "", "trow": 0, "val": value_of(encode_res(res))})
+      return res
+
+    eng._make_sorted_work_items, eng._recompute_step, eng._recompute_one_cell = make, step, cell
+
+
+def encode_res(res):
+  import objtypes
+  return objtypes.encode_object(res)
+
+
 def main():
+  global TRACE_EVENTS
   args = json.loads(sys.argv[1])
   spec = json.load(open(args["inp"]))
   cols, rows, programs = spec["cols"], spec["rows"], spec["programs"]
+  TRACE_EVENTS = bool(args.get("events"))
+  traces = []
   rng = random.Random(args.get("seed", 0))
   cases = []
   allperms = list(itertools.permutations(cols))
@@ -72,6 +136,9 @@ def main():
               "vals": {c: [] for c in cols}, "exc": "", "sig": "", "ref_sig": "", "order_seen": []}
       try:
         case["vals"], case["sig"], case["order_seen"] = run_program(cols, rows, prog, perm)
+        if TRACE_EVENTS:
+          traces.append({"tid": "%d/%s" % (len(traces), "".join(perm)), "same": prog["same"],
+                         "cross": prog["cross"], "events": list(LAST_EVENTS)})
         if ref_sig is None:
           ref_sig = case["sig"]
         case["ref_sig"] = ref_sig
@@ -79,6 +146,8 @@ def main():
         case["exc"] = type(e).__name__ + ": " + str(e)[:200]
       cases.append(case)
   json.dump(cases, open(args["out"], "w"))
+  if TRACE_EVENTS:
+    json.dump({"cols": cols, "rows": rows, "traces": traces}, open(args["events"], "w"))
 
 
 main()
